@@ -456,6 +456,9 @@ class Tokenizer(BaseTokenizer):
         # If a file-like object, automatically use the configured name.
         if filename is None and hasattr(data, 'name'):
             filename = data.name  # pyright: ignore - Can't handle hasattr()
+            # Files opened from a descriptor (tempfile.TemporaryFile(), open(fd), pipes) have that int as their name.
+            if isinstance(filename, int):
+                filename = None
 
         super().__init__(filename, error)
 
